@@ -2,7 +2,7 @@
     followed by [Print Assumptions].  ECDSA, the digests, the DER parser and the protobuf
     codec are universally quantified functions; where a theorem needs something of them it is
     a premise that the instances of [Proofs.Toy] satisfy. *)
-From Sci Require Import Signed.Model Signed.Spec Signed.Proofs.
+From Sci Require Import Signed.Model Signed.Spec Signed.Proofs Signed.PathProofs.
 Local Open Scope N_scope.
 
 (** [SignedMessage::validate] succeeds exactly when the header-and-body framing and the header
@@ -158,6 +158,15 @@ Theorem rpc_roundtrip_segment :
 Proof. intros. apply segment_roundtrip; assumption. Qed.
 Print Assumptions rpc_roundtrip_segment.
 
+(** non-vacuity, with the codec instances of [Proofs.Toy]: a signed two-entry segment *)
+Example rpc_roundtrip_segment_instance :
+  let e := fun ia => mkAE ia (ia + 1) 1500 (mkHE 1400 (mkHF 63 1 2 [1; 2; 3; 4; 5; 6]))
+                          [mkPE 9 3 1400 (mkHF 10 3 0 [6; 5; 4; 3; 2; 1])] [] [] in
+  let add := fun sg ia => add_entry Toy.hash Toy.sig_sign Toy.enc_hb Toy.enc_hdr Toy.enc_body sg (e ia) ia [ia] 9 in
+  let sg := add (add (mkSeg (seginfo_new Toy.enc_info 100 7) []) 1) 2 in
+  segment_from_rpc Toy.dec_hb Toy.dec_body Toy.enc_info Toy.dec_info (segment_to_rpc Toy.enc_info sg) = Ok sg.
+Proof. vm_compute. reflexivity. Qed.
+
 (** ... which holds of every value the API can build: the result of [try_from_rpc], the empty
     segment, and the result of signing a well-formed entry onto a segment that has it. *)
 Theorem segment_values_satisfy_invariant :
@@ -171,11 +180,59 @@ Theorem segment_values_satisfy_invariant :
 Proof.
   intros K hash sig_sign enc_hb dec_hb enc_hdr enc_body dec_body enc_info dec_info Hhb Hbody.
   refine (conj _ (conj _ _)).
-  - intros r sg. exact (segment_from_rpc_inv dec_hb dec_body enc_info dec_info r sg).
+  - intros r sg. exact (segment_from_rpc_inv enc_hb dec_hb dec_body enc_info dec_info r sg).
   - intros ts id. exact (empty_segment_inv dec_hb dec_body enc_info ts id).
   - intros sg e key kid ts. apply add_entry_inv; assumption.
 Qed.
 Print Assumptions segment_values_satisfy_invariant.
+(** the codec premises are satisfiable *)
+Example segment_values_satisfy_invariant_instance :
+  forall sg e key kid ts, seg_inv Toy.dec_hb Toy.dec_body Toy.enc_info sg -> asentry_wf e ->
+    seg_inv Toy.dec_hb Toy.dec_body Toy.enc_info
+            (add_entry Toy.hash Toy.sig_sign Toy.enc_hb Toy.enc_hdr Toy.enc_body sg e key kid ts).
+Proof.
+  exact (proj2 (proj2 (segment_values_satisfy_invariant N Toy.hash Toy.sig_sign Toy.enc_hb Toy.dec_hb Toy.enc_hdr
+                         Toy.enc_body Toy.dec_body Toy.enc_info Toy.dec_info Toy.hb_roundtrip Toy.body_roundtrip))).
+Qed.
+
+(** Converting a path value to its RPC form and back yields the same value, for every value
+    that HAS an RPC form ([Spec.path_repr]: what [try_from_rpc] can produce from a message with
+    non-negative times and link types that do not alias -- fields within their protocol ranges,
+    link data only where the protocol has a slot for it, all-or-nothing link types and internal
+    hop counts, no data on the last interface).  [Findings] shows the excluded values are
+    really not representable.  The standard-path parser and the socket-address text form are
+    oracles: the address must survive print-then-parse, a raw path accepted by [std_ok] must
+    parse without rest. *)
+Theorem rpc_roundtrip_path :
+  forall (SA : Type) (std_parse : bytes -> option bytes) (sa_parse : bytes -> option SA)
+         (sa_show : SA -> bytes) (std_ok : bytes -> bool),
+    (forall a, sa_parse (sa_show a) = Some a) ->
+    (forall raw, std_ok raw = true -> std_parse raw = Some []) ->
+    forall p : spath SA,
+      path_repr std_ok p = true ->
+      path_from_rpc std_parse sa_parse (path_to_rpc sa_show p) (sp_src p) (sp_dst p) = Ok p.
+Proof. intros. eapply path_roundtrip; eassumption. Qed.
+Print Assumptions rpc_roundtrip_path.
+(** non-vacuity: a four-interface path with latencies, bandwidths, geo data, link types,
+    internal hops, notes, EPIC authenticators and a next hop is representable and comes back *)
+Definition example_path : spath bytes :=
+  mkPath 281474976710672 281474976710673 [0; 0; 32; 0]
+    (Some (mkPM 1800000000 1400
+       (Some [mkIf 1 1 (Some (mkGeo 1111359488 1091043328 (Some [120]))) (Some (0, 5000)) (Some 100) (Some (LEgress LtDirect));
+              mkIf 2 2 None None None (Some (LIngress 3));
+              mkIf 2 3 None (Some (1, 0)) None (Some (LEgress (LtUnknown 200)));
+              mkIf 3 4 None None None None])
+       (Some ([1; 2], [])) (Some [[97]; []; [98]])))
+    (Some [49; 48]).
+Example rpc_roundtrip_path_instance :
+  path_repr (fun _ => true) example_path = true /\
+  path_from_rpc (fun _ => Some []) (fun a => Some a) (path_to_rpc (fun a => a) example_path)
+                (sp_src example_path) (sp_dst example_path) = Ok example_path.
+Proof.
+  split; [vm_compute; reflexivity|].
+  apply (rpc_roundtrip_path bytes (fun _ => Some []) (fun a => Some a) (fun a => a) (fun _ => true));
+    [reflexivity|reflexivity|vm_compute; reflexivity].
+Qed.
 
 (** Converting arbitrary decoded RPC messages yields a value or an error: no panic site of the
     converters (the [mac[..6]] slice and [expect], [Self::local(..).expect(..)]) is reachable,
